@@ -18,6 +18,8 @@ pub struct Comparison {
     /// unmatched predicted reports (class, location) and unmatched observed reports
     pub missing: Vec<(String, crate::pv::Path)>,
     pub extra: Vec<(String, crate::pv::Path)>,
+    /// predicted reports that were made but are not held by the returned error (class, location)
+    pub not_held: Vec<(String, crate::pv::Path)>,
     pub value: Result<(), String>,
     pub visits: Result<(), String>,
     pub calls: Result<(), String>,
@@ -70,6 +72,12 @@ pub fn compare(e: &Entry, payload: &PV, src: Src) -> Comparison {
     };
     let missing: Vec<(String, crate::pv::Path)> = mi.iter().map(|i| (class_p(&pred.reports[*i].kind), pred.reports[*i].loc.clone())).collect();
     let extra: Vec<(String, crate::pv::Path)> = ex.iter().map(|j| (class_r(actual[*j].1), actual[*j].2.clone())).collect();
+    let not_held: Vec<(String, crate::pv::Path)> = if out.panicked.is_some() {
+        vec![]
+    } else {
+        let (hm, _) = crate::interp::diff_reports(&pred.reports, &held);
+        hm.iter().filter(|i| !mi.contains(i)).map(|i| (class_p(&pred.reports[*i].kind), pred.reports[*i].loc.clone())).collect()
+    };
     let value = match (&pv, &out.result) {
         (Some(m), Ok(a)) => {
             if m == a {
@@ -128,5 +136,5 @@ pub fn compare(e: &Entry, payload: &PV, src: Src) -> Comparison {
             show(&actual_calls)
         ))
     };
-    Comparison { out, pred_value: pv, pred, seen, reports: rep, final_reports: final_rep, missing, extra, value, visits: vis, calls }
+    Comparison { out, pred_value: pv, pred, seen, reports: rep, final_reports: final_rep, missing, extra, not_held, value, visits: vis, calls }
 }
